@@ -1,0 +1,132 @@
+//! Verification hooks (feature `verif-hooks`, OFF by default).
+//!
+//! Thin public wrappers / re-exports around the otherwise private shell
+//! functions so the external harness crates under /verif can call the REAL
+//! code. Add-only; nothing here is compiled in a normal build and no wrapper
+//! contains logic of its own.
+// The binary target compiles its own copy of the module tree and uses none of this.
+#![allow(dead_code, unused_imports)]
+
+use std::collections::HashMap;
+use std::net::SocketAddr;
+
+use anyhow::Result;
+use smallvec::SmallVec;
+use srtla_core::connection::{SrtlaConnection, SrtlaIncoming};
+use srtla_core::registration::SrtlaRegistrationManager;
+use tokio::net::UdpSocket;
+use tokio::sync::mpsc::UnboundedSender;
+
+pub use super::reload::{IpReload, ReloadRefusal, analyze_ip_reload_text};
+pub use super::sequence::{SequenceTracker, SequenceTrackingEntry};
+pub use super::uplink::{ConnIo, ConnIoMap, ConnectionId, ReaderHandle, UplinkPacket};
+use crate::config::ConfigSnapshot;
+
+pub fn attribute_nak(
+    connections: &mut [SrtlaConnection],
+    seq_tracker: &SequenceTracker,
+    nak: u32,
+    current_time_ms: u64,
+) -> Option<usize> {
+    super::packet_handler::attribute_nak(connections, seq_tracker, nak, current_time_ms)
+}
+
+#[allow(clippy::too_many_arguments)]
+pub async fn process_uplink_packet(
+    conn: &mut SrtlaConnection,
+    conn_idx: usize,
+    reg: &mut SrtlaRegistrationManager,
+    local_listener: &UdpSocket,
+    instant_forwarder: &UnboundedSender<(SocketAddr, SmallVec<u8, 64>)>,
+    client_addr: Option<SocketAddr>,
+    data: &[u8],
+) -> Result<SrtlaIncoming> {
+    super::uplink_recv::process_uplink_packet(
+        conn,
+        conn_idx,
+        reg,
+        local_listener,
+        instant_forwarder,
+        client_addr,
+        data,
+    )
+    .await
+}
+
+#[allow(clippy::too_many_arguments)]
+pub async fn process_connection_events(
+    idx: usize,
+    connections: &mut [SrtlaConnection],
+    last_client_addr: Option<SocketAddr>,
+    local_listener: &UdpSocket,
+    seq_tracker: &SequenceTracker,
+    classic: bool,
+    incoming: SrtlaIncoming,
+) -> Result<()> {
+    super::packet_handler::process_connection_events(
+        idx,
+        connections,
+        last_client_addr,
+        local_listener,
+        seq_tracker,
+        classic,
+        incoming,
+    )
+    .await
+}
+
+#[allow(clippy::too_many_arguments)]
+pub async fn handle_srt_packet(
+    res: Result<(usize, SocketAddr), std::io::Error>,
+    recv_buf: &mut [u8],
+    connections: &mut [SrtlaConnection],
+    conn_io: &ConnIoMap,
+    last_selected_idx: &mut Option<usize>,
+    seq_tracker: &mut SequenceTracker,
+    last_client_addr: &mut Option<SocketAddr>,
+    registration_complete: bool,
+    config_snap: &ConfigSnapshot,
+    critical_window: &srtla_core::priority::CriticalWindow,
+) {
+    super::packet_handler::handle_srt_packet(
+        res,
+        recv_buf,
+        connections,
+        conn_io,
+        last_selected_idx,
+        seq_tracker,
+        last_client_addr,
+        registration_complete,
+        config_snap,
+        critical_window,
+    )
+    .await
+}
+
+pub async fn flush_all_batches(connections: &mut [SrtlaConnection], conn_io: &ConnIoMap) {
+    super::packet_handler::flush_all_batches(connections, conn_io).await
+}
+
+#[allow(clippy::too_many_arguments)]
+pub async fn handle_housekeeping(
+    connections: &mut [SrtlaConnection],
+    conn_io: &mut ConnIoMap,
+    reg: &mut SrtlaRegistrationManager,
+    classic: bool,
+    now_ms: u64,
+    all_failed_at: &mut Option<u64>,
+    reader_handles: &mut HashMap<ConnectionId, ReaderHandle>,
+    packet_tx: &UnboundedSender<UplinkPacket>,
+) -> Result<()> {
+    super::housekeeping::handle_housekeeping(
+        connections,
+        conn_io,
+        reg,
+        classic,
+        now_ms,
+        all_failed_at,
+        reader_handles,
+        packet_tx,
+    )
+    .await
+}
